@@ -152,9 +152,22 @@ func completeVariable(p np.Path, ev *eval.Evaler, cfg Config) (*context, []RawIt
 		"variable", nameSeed, parse.Bareword,
 		diag.Ranging{From: begin, To: primary.Range().To}}
 
+	// After a sigil or a namespace, or inside a quoted variable name that
+	// contains them, the rest of the name can only be completed by appending
+	// to it. A name that needs quoting must be quoted as a whole (like
+	// $'ns:a b'), so it cannot be offered there.
+	appendOnly := sigil != "" || ns != ""
+	if src := parse.SourceText(primary); appendOnly && len(src) > 1 && (src[1] == '\'' || src[1] == '"') {
+		return nil, nil, errNoCompletion
+	}
+
 	var items []RawItem
 	eachVariableInNs(ev, p, ns, func(varname string) {
-		items = append(items, noQuoteItem(parse.QuoteVariableName(varname)))
+		quoted := parse.QuoteVariableName(varname)
+		if appendOnly && quoted != varname {
+			return
+		}
+		items = append(items, noQuoteItem(quoted))
 	})
 	if ns == "" {
 		items = append(items, noQuoteItem("e:"), noQuoteItem("E:"))
